@@ -49,6 +49,9 @@ type Knobs struct {
 	Persistent map[string]bool `json:"persistent,omitempty"`
 	StepCap    int             `json:"stepCap"`
 	RejectDev  bool            `json:"rejectDev,omitempty"` // devices refuse Sets containing DevRejectValue
+	// Observers: scenario positions of Sets / rollbacks whose transaction a second client watches by id (admin
+	// WatchTransactions) as soon as it is in the log and while the request is still waiting
+	Observers []int `json:"observers,omitempty"`
 	// Resync (C04, C10): resolved by the runner - a fault placed at one of the pushes of a re-synchronisation
 	Resync *ResyncSpec `json:"resync,omitempty"`
 	// SharedChannel: see Device.Shared
